@@ -230,7 +230,9 @@ def analyse_body(body):
     """Return the list of Result-producing sites with classified consumers."""
     sites = []
     uses = None
-    ret_is_result = result_err(body.ret or "") is not None
+    # also `Option<Result<T, E>>` and the like (closures of find_map(..).transpose()): an Err that is moved into
+    # the returned value is handed to the caller, not absorbed
+    ret_is_result = result_err(body.ret or "") is not None or "result::Result<" in (body.ret or "")
     origins = []  # (local, bb, callee-or-origin-name, err, line)
     for bi, t in body.calls():
         # --- iterator adapters that silently drop Err items
